@@ -140,6 +140,27 @@ theorem fits_is_the_algorithm_of_the_curve (alg : String) :
 example : algorithmFitsKey "ES256" (.ecdsa "P-521") = false ∧ algorithmFitsKey "ES512" (.ecdsa "P-521") = true ∧
     algorithmFitsKey "ES512" (.ecdsa "P-256") = false ∧ algorithmFitsKey "EdDSA" (.ed25519 31) = false := by decide
 
+/-- the long-lived objects that verify tokens hold services and constants only — no map, cache or captured variable that could
+    remember a key resolved for an earlier request: the verification key is a function of the CURRENT resolution. (The bearer-token
+    middleware's fields are pinned by C04's fact_middleware_stateless.) -/
+theorem fact_verifiers_hold_no_key_state :
+    Facts.C17.dagVerifierClosureState = [] ∧
+    Facts.C17.jarFields = ["auth auth.AuthenticationServices", "jwtSigner cryptoNuts.JWTSigner", "keyResolver resolver.KeyResolver"] ∧
+    Facts.C17.signatureVerifierFields = ["keyResolver resolver.KeyResolver", "jsonldManager jsonld.JSONLD"] ∧
+    Facts.C17.authzServerFields =
+      ["vcFinder vcr.Finder", "vcVerifier verifier.Verifier", "keyResolver resolver.KeyResolver", "privateKeyStore nutsCrypto.KeyStore",
+       "contractNotary services.ContractNotary", "serviceResolver didman.CompoundServiceResolver", "jsonldManager jsonld.JSONLD",
+       "secureMode bool", "clockSkew time.Duration", "accessTokenLifeSpan time.Duration"] := by decide
+
+/-- **key_is_current_resolution**: on the model, what a consumer accepts after any earlier requests is decided by the key source
+    as it is NOW — two environments that agree on the current lookup of the token's kid (and on jwx's verdicts) give the same
+    outcome, whatever they answered for other kids or earlier -/
+theorem key_is_current_resolution (E E' : Env) (j : Jws) (s : Sig) (hs : j.sigs = [s])
+    (hres : E.resolve s.kid = E'.resolve s.kid) (hver : E.verifies = E'.verifies) (hfit : E.fits = E'.fits) :
+    parseJWT Facts.C17.supportedAlgs E j = parseJWT Facts.C17.supportedAlgs E' j := by
+  unfold parseJWT
+  simp only [hs, hres, hver, hfit]
+
 /-! ### The uniform statement -/
 
 /-- the discipline of an accepted token: exactly one signature `s`, exactly one verification `v`, of that signature,
